@@ -79,8 +79,10 @@ class Run:
                 self.dead = True
                 raise Crash("%d:%s" % (i, what))
             self.interrupted = True
-            if self.style == "fail" and what.startswith(("publish:", "work:")):
-                raise PipelineFailure(1, "nextflow (injected failure at %d:%s)" % (i, what))
+            if self.style in ("fail", "signal") and what.startswith(("publish:", "work:")):
+                # the launched pipeline command ends with an error status - or (style "signal") is killed by a signal (OOM killer,
+                # pre-emption), which subprocess reports as a negative return code
+                raise PipelineFailure(1 if self.style == "fail" else -9, "nextflow (injected failure at %d:%s)" % (i, what))
             raise KeyboardInterrupt("%d:%s" % (i, what))
 
     def key_of(self, path):
